@@ -222,7 +222,13 @@ def main(argv=None):
 
         violations = list(kf_viols) + corpus_viol + [(c, m) for (c, m, _part) in merged["violations"]]
         distinct = len(merged["hashes"]) + merged["enum"]
-        exhaustive = bool(merged["exhaustive_parts"]) and all(merged["exhaustive_parts"].values())
+        # top-level `exhaustive` only when every part of the run was a complete finite enumeration; the per-part
+        # detail (which finite sub-domains were enumerated completely) is in `exhaustive_parts`
+        exhaustive = (
+            bool(merged["exhaustive_parts"])
+            and all(merged["exhaustive_parts"].values())
+            and all(name in merged["exhaustive_parts"] for name in merged["parts"])
+        )
         wall = time.time() - t0
 
         by_part = {}
